@@ -197,7 +197,7 @@ func runWallet(r *evid.Run, dir string, cs int64) {
 	// restart: the concurrent round runs on counters read back from the database
 	if rg.Intn(3) != 0 {
 		f.Stop()
-		if err := f.Open(0, true); err != nil {
+		if err := f.Open(f.Window, true); err != nil {
 			if errors.Is(err, wh.ErrNotSynced) {
 				r.Inconclusive("resync watchdog")
 				return
@@ -649,7 +649,7 @@ func main() {
 	r.Rule("complete funded wallets (unlocked for the whole run); 8..32 goroutines x 4..8 calls (<= 180 per history) mixing NewAddress, NewChangeAddress, CurrentAddress on two key scopes of the default account and NewAddress / NewChangeAddress on an imported extended-public-key account (which issued 0..5 receiving and 0..5 change addresses beforehand; a further goroutine renames both accounts all along, rewriting their rows, and four more read account properties / listings all along; two of three wallets are stopped and reopened before the round, so that its counters come from the database), CreateSimpleTx that needs change (real and dry run) and FundPsbt with and without caller-supplied inputs, while the database wrapper delays every commit callback by 0 / <=300 us / <=2 ms; each returned address is mapped to (branch, index) by the independent derivation oracle; porcupine checks each branch's history against a sequential next-index counter (CurrentAddress may return the last unused index); afterwards: no index twice, key counts not behind the issued indices, a manager opened on a copy of the database reports the same counts. All under the Go race detector; a report whose two stacks both come from issuing calls is a violation. Non-trivial = history with > 20 recorded issuing calls; distinct = distinct (seed, goroutines, calls, delay); distinct interleavings = distinct recorded histories.")
 	r.Trusted("porcupine v1.3.0 linearizability checker", "independent BIP32 oracle for address -> index", "Go race detector")
 	r.Assume("schedules are sampled, widened at the commit-callback window only", "calls that return an error are not part of the history (they must not have consumed an index: covered by the gap/linearizability check of later calls)")
-	dir, _ := os.MkdirTemp("", "c09")
+	dir := r.TempDir("c09")
 	defer os.RemoveAll(dir)
 	r.Parallel("wallet", r.N(24, 600), 8, func(i int, cs int64) { runWallet(r, dir, cs) })
 	if n, first := raceReports(); n > 0 {
